@@ -745,10 +745,10 @@ def families(tier, want=None):
     quick = tier == 'quick'
     out = []
     N = 3 if quick else 4
-    pats = [('a', 'a'), ('a', 'b')] if quick else [('a', 'a'), ('a', 'b'), ('b', 'a'), ('c', 'd')]
+    pats = [('a', 'a'), ('a', 'b')] if quick else [('a', 'a'), ('a', 'b'), ('b', 'a')]
     for n in range(N + 1):
         for m in range(N + 1):
-            if not quick and n + m > 7:
+            if not quick and n + m > 6:
                 continue
             for pa, pb in pats:
                 A, B_ = fam_list(n, m, pa, pb)
@@ -770,9 +770,9 @@ def families(tier, want=None):
                 if big and (pa, pb) != ('a', 'a'):
                     continue                      # the 5- and 6-key pairs only with one length pattern (path count)
                 strategies = ['none']
-                if not (quick and n + m >= 5):
-                    strategies.append('auto')     # 5-6 keys under 'auto': 2k-30k paths, thorough only
-                if n + m <= 3 or (n + m == 4 and (not quick or (pa, pb) == ('a', 'a'))) or (not quick and n + m <= 5 and (pa, pb) == ('a', 'a')):
+                if n + m <= 4 or (not quick and n + m == 5):
+                    strategies.append('auto')     # 5 keys under 'auto': ~2.4k paths (thorough); 6 keys: ~30k paths (not run)
+                if n + m <= 3 or (n + m == 4 and (not quick or (pa, pb) == ('a', 'a'))):
                     strategies.append('match')
                 for st in strategies:
                     w = (n * m * (8 if st == 'match' else (4 if st == 'auto' else 1))) + 1
@@ -804,7 +804,7 @@ def families(tier, want=None):
         ]
     for name, A, B_ in nested:
         for st in ['auto', 'none', 'match']:
-            if quick and st == 'match' and name not in ('DD2', 'DL2', 'LL-2-2'):
+            if st == 'match' and name not in ('DD2', 'DL2', 'LL-2-2'):
                 continue
             for lm in (['on', 'off'] if 'L' in name else ['on']):
                 out.append((name, A, B_, [st], [lm], 20))
@@ -926,5 +926,6 @@ def tree_bounds_text(tier):
                 "nestings (list/dict of list/dict) x {auto,none} (+match for three) x list on/off; 13 cross-kind pairs (null/bool/str/"
                 "int/list/dict/multiset); plist wrappers; leaf lengths mixed 1/2; value alphabet 3, key alphabet = number of keys "
                 "of both mappings (every shared/unshared key pattern is realisable); every leaf value and key symbolic")
-    return ("lists n,m<=4 (n+m<=7) x 3 list modes x 4 length patterns; multisets n+m<=6; mappings n,m<=3 x 3 strategies; 16 depth-2/3 "
-            "nestings; cross-kind pairs; plist wrappers; alphabet 4")
+    return ("lists n,m<=4 (n+m<=6) x 3 list modes x 3 length patterns; multisets n+m<=6; mappings n,m<=3 x {none, auto (n+m<=5), match "
+            "(n+m<=4)}; 19 depth-2/3 nestings (incl. 2x2 lists of 2-element lists) x {auto, none}; cross-kind pairs; plist wrappers; "
+            "value alphabet 4; 6-key mappings under auto (~30k paths each) are not run")
